@@ -67,3 +67,19 @@ func (r *Routers) ZZRouteUsername(domain, location, user string) (string, bool) 
 func (r *Routers) ZZGuard(name string) { zzverif.Guard(r.indexByDomain, &r.mutex, name) }
 
 func (v *Muxer) ZZGuard(name string) { v.registryRouter.ZZGuard(name) }
+
+// ZZListenerCreds returns the credentials of the listener registered in the muxer for exactly
+// (domain, "", routeUser).
+func (v *Muxer) ZZListenerCreds(domain, routeUser string) (user, pass string, ok bool) {
+	v.registryRouter.mutex.RLock()
+	defer v.registryRouter.mutex.RUnlock()
+	vr, found := v.registryRouter.exist(domain, "", routeUser)
+	if !found {
+		return "", "", false
+	}
+	l, isL := vr.payload.(*Listener)
+	if !isL {
+		return "?", "?", true
+	}
+	return l.username, l.password, true
+}
